@@ -1570,3 +1570,116 @@ def guards_ahead(fi, outcome, guard_stmts, passed):
         if cfg.has_stmt(g) and cfg.node_of(g) in reach:
             out.append(g)
     return out
+
+
+# --------------------------------------------------------------------------------------
+# "is this guard still ahead of the point where interpretation ended?"  (frames of the whole call stack)
+# --------------------------------------------------------------------------------------
+
+_LOCALS_CACHE = {}
+_REACH_CACHE = {}
+
+
+def _local_names(fi):
+    key = id(fi.node)
+    r = _LOCALS_CACHE.get(key)
+    if r is None or r[0] is not fi.node:
+        from .cfg import defined_names
+        names = set(fi.params())
+        for n in cfg_of(fi).stmt_nodes():
+            if not isinstance(n.stmt, (ast.FunctionDef, ast.AsyncFunctionDef, ast.ClassDef, ast.Import, ast.ImportFrom)):
+                names |= defined_names(n.stmt, n.kind)
+        for sub in ast.walk(fi.node):
+            if isinstance(sub, ast.comprehension):
+                for t in ast.walk(sub.target):
+                    if isinstance(t, ast.Name):
+                        names.add(t.id)
+            elif isinstance(sub, ast.Lambda):
+                names |= {a.arg for a in sub.args.args}
+        r = (fi.node, names)
+        _LOCALS_CACHE[key] = r
+    return r[1]
+
+
+def _call_may_reach(program, fi, call, target, depth=0):
+    """May this call (inside function fi) end up executing `target`?  Statically resolved repository callees are followed
+    transitively; a call through a local variable / parameter (dispatch table entry, callback) may reach anything; calls of
+    external library attributes and builtins reach no repository function."""
+    callee = _resolve_static(program, fi, call)
+    if callee is not None:
+        return callee is target or callee.node is target.node or _func_may_reach(program, callee, target, depth + 1)
+    f = call.func
+    if isinstance(f, ast.Name) and f.id in _local_names(fi):
+        return True
+    if isinstance(f, (ast.Subscript, ast.Call, ast.IfExp)):
+        return True             # table[key](...), factory()(...): dynamic
+    return False
+
+
+def _func_may_reach(program, fi, target, depth=0):
+    key = (id(fi.node), id(target.node))
+    if key in _REACH_CACHE:
+        return _REACH_CACHE[key]
+    if depth > 12:
+        return True
+    _REACH_CACHE[key] = False        # recursion guard (cycles)
+    res = False
+    for sub in ast.walk(fi.node):
+        if isinstance(sub, ast.Call) and _call_may_reach(program, fi, sub, target, depth):
+            res = True
+            break
+    _REACH_CACHE[key] = res
+    return res
+
+
+def guard_still_ahead(program, fi, outcome, G, F, node):
+    """The run `outcome` of entry point fi ended (stop / implicit) somewhere on its call stack.  Can the guard site
+    `node` (a raise/assert of function F; entry-level guard statement G) still be reached from there?
+      * G is reachable strictly after the entry-level statement that is executing  -> yes
+      * the run is still evaluating G itself at entry level (no callee frame)       -> yes
+      * the run is inside callee frames of G: yes iff some frame may still execute F - F is that frame's function and
+        the site is reachable from its current statement, or a statement still to run in that frame contains a call that
+        may reach F (static call graph; calls through local variables are dynamic and may reach anything).  Calls of the
+        statements currently executing in the lower frames are in progress (they ARE the upper frames)."""
+    frames = {}
+    for (d, f, st) in outcome.stack:
+        frames[d] = (f, st)            # innermost statement per depth
+    if 1 not in frames:
+        return True
+    depths = sorted(frames)
+    top = depths[-1]
+    for d in depths:
+        f, cur = frames[d]
+        if not isinstance(f, FuncInfo):
+            return True
+        cfg = cfg_of(f).pruned(outcome.decided_in(f))
+        if not cfg.has_stmt(cur):
+            return True
+        cid = cfg.node_of(cur)
+        if d == top:
+            reach = cfg.reachable(cid)
+        else:
+            reach = set()
+            for (t, _lab) in cfg.successors(cid):
+                reach |= cfg.reachable(t)
+        if d == 1:
+            if cfg.has_stmt(G):
+                gid = cfg.node_of(G)
+                if gid in reach:
+                    return True          # strictly ahead (or, for a single frame, the statement being evaluated)
+                if gid != cid:
+                    return False         # G is neither ahead nor in progress: bypassed on this path
+            # G is in progress in the callee frames: look at them
+            if top == 1:
+                return False
+            continue
+        if (f is F or f.node is F.node) and cfg.has_stmt(node) and cfg.node_of(node) in reach:
+            return True
+        for nid in reach:
+            st = cfg.nodes[nid].stmt
+            if st is None:
+                continue
+            for call in _calls_of_header(st):
+                if _call_may_reach(program, f, call, F):
+                    return True
+    return False
